@@ -33,10 +33,19 @@ def log(*a):
     print(*a, file=sys.stderr, flush=True)
 
 
-def sh(cmd, cwd=None, timeout=1800, env=None, stdin=None):
+def _big_stack():
+    import resource
+    try:
+        soft, hard = resource.getrlimit(resource.RLIMIT_STACK)
+        resource.setrlimit(resource.RLIMIT_STACK, (hard, hard))
+    except Exception:
+        pass
+
+
+def sh(cmd, cwd=None, timeout=1800, env=None, stdin=None, big_stack=False):
     try:
         p = subprocess.run(cmd, cwd=cwd, env=env, stdin=stdin, stdout=subprocess.PIPE, stderr=subprocess.STDOUT,
-                           timeout=timeout, shell=isinstance(cmd, str))
+                           timeout=timeout, shell=isinstance(cmd, str), preexec_fn=_big_stack if big_stack else None)
         return p.returncode, p.stdout.decode("utf-8", "replace")
     except subprocess.TimeoutExpired as e:
         out = (e.stdout or b"").decode("utf-8", "replace")
@@ -261,7 +270,7 @@ def run_job(pid, job, tier, seed, hb, runner_exe, tag=""):
     mism = []
     if os.path.getsize(cases) > 0:
         with open(cases, "rb") as fin:
-            rc2, mo = sh([runner_exe], stdin=fin, timeout=job.get("timeout", 3000))
+            rc2, mo = sh([runner_exe], stdin=fin, timeout=job.get("timeout", 3000), big_stack=True)
         with open(os.path.join(out, "model.tsv"), "w") as f:
             f.write(mo)
         if rc2 != 0:
